@@ -58,6 +58,23 @@ CHECKS = {
              "values is displayed follows Python's set order and is not compared. The escaping itself needed a fix: commit.",
         technique="Lean 4 induction proofs on escaping functions + structure correspondence through Graphviz's own parser",
         design="§4.C15"),
+    "C16": dict(
+        text="Lean: the dispatch between the caller and the dump/parse functions of json, lxml and rdflib (which are parameters): "
+             "destination kinds {returned string, text stream, binary stream, path}, the text-vs-bytes branch of each serializer class, "
+             "source kinds {content str, content bytes, text stream, binary stream, path} with stream position, and the format loop of "
+             "prov.read in Registry order (regenerated: t_registry_order). Proved for ALL texts and documents: utf8_roundtrip (decode . encode = id); "
+             "c16_dest_agree (all four destinations carry the same text / its UTF-8 bytes); c16_source_agree (all five source kinds yield one "
+             "document); c16_write_read and c16_write_read_xml (4 x 5 grid); c16_read_sniffs (prov.read without a format is one function of the "
+             "text for every source kind); c16_read_detects (it equals deserialize(format=f) when no other reader accepts the text); "
+             "c16_read_stream_consumed; c16_old_loop_refuted (the loop that handed one stream to every format returns an empty document). "
+             "On the real code: every cell of documents x formats x 4 destinations x 5 sources x {deserialize, read(format), read()} is run, "
+             "compared by strict content with the document read from the returned string and with the model's prediction; every text is "
+             "offered to every other format's reader; path round trips are repeated in a subprocess under an ASCII locale.",
+        note=A_COMMON + " The two library facts the theorems assume (rdflib treats a text stream and its UTF-8 bytes alike; lxml's text and "
+             "binary writers give documents with one canonical form) are validated on every generated document, not proved. "
+             "Known finding C16-1 (TriG graph block order varies between calls) is tolerated only as a pure permutation of identical blocks.",
+        technique="Lean 4 proof over all texts and source/destination kinds + exhaustive cell grid on the real calls",
+        design="§4.C16", category="proof"),
     "C17": dict(
         text="Lean: destination analysis transcribed from urlparse as used after the fix (scheme detection, netloc, file: URLs): "
              "c17_exact / c17_exact_plain: every name without a network part that is not a file: URL is written to exactly that name, "
